@@ -31,8 +31,12 @@ func (sm *storedMessages) add(msg *IncMessage) {
 	defer sm.lock.Unlock()
 
 	if sm.messageCountPerSender[msg.Source] > limitPerSender {
+		topicPrefix := msg.Topic
+		if len(topicPrefix) > 8 {
+			topicPrefix = topicPrefix[:8]
+		}
 		sm.logger.Warnf("Received too many messages from %d (limit is %d) for topic %s",
-			msg.Source, limitPerSender, hex.EncodeToString(msg.Topic[:8]))
+			msg.Source, limitPerSender, hex.EncodeToString(topicPrefix))
 		return
 	}
 
@@ -133,7 +137,7 @@ func (b *Box) getOrCreateMessagesByTopic(topic []byte) *storedMessages {
 
 	messages, exists = b.pendingMessages[string(topic)]
 	if !exists {
-		messages = &storedMessages{messageCountPerSender: make(map[uint16]int)}
+		messages = &storedMessages{messageCountPerSender: make(map[uint16]int), logger: b.Logger}
 	}
 
 	b.pendingMessages[string(topic)] = messages
